@@ -48,14 +48,13 @@ type XAConn struct {
 	rollBacked         bool
 	branchRegisterTime time.Time
 	prepareTime        time.Time
-	isConnKept         bool
 }
 
 // ResetSession is called by database/sql before it hands a pooled connection out again. A connection that keeps a
 // prepared branch for phase two cannot serve other statements (the server refuses everything but XA COMMIT / XA
 // ROLLBACK on it): it is withdrawn from the pool, phase two finds it through the resource's keeper.
 func (c *XAConn) ResetSession(ctx context.Context) error {
-	if c.isConnKept {
+	if c.holdState.isKept() {
 		return driver.ErrBadConn
 	}
 	return c.Conn.ResetSession(ctx)
@@ -266,7 +265,7 @@ func (c *XAConn) reportPhaseOneFailure() {
 func (c *XAConn) keepIfNecessary() {
 	if c.ShouldBeHeld() {
 		if err := c.res.Hold(c.xaBranchXid.String(), c); err == nil {
-			c.isConnKept = true
+			c.holdState.setKept(true)
 		}
 	}
 }
@@ -276,9 +275,9 @@ func (c *XAConn) releaseIfNecessary() {
 		return
 	}
 	if c.ShouldBeHeld() && c.xaBranchXid.String() != "" {
-		if c.isConnKept {
+		if c.holdState.isKept() {
 			c.res.Release(c.xaBranchXid.String())
-			c.isConnKept = false
+			c.holdState.setKept(false)
 		}
 	}
 }
@@ -329,7 +328,7 @@ func (c *XAConn) cleanXABranchContext() {
 	c.prepareTime = time.Now().Add(h)
 	c.xaActive = false
 	c.holdState.leavePhaseOne(c.prepareTime)
-	if !c.isConnKept {
+	if !c.holdState.isKept() {
 		c.xaBranchXid = nil
 	}
 }
@@ -367,9 +366,9 @@ func (c *XAConn) Rollback(ctx context.Context) error {
 // server rolls back a branch that is not prepared when its connection goes away, and database/sql replaces the
 // connection on its next use
 func (c *XAConn) abandonConnection() {
-	if c.isConnKept && c.xaBranchXid != nil {
+	if c.holdState.isKept() && c.xaBranchXid != nil {
 		c.res.Release(c.xaBranchXid.String())
-		c.isConnKept = false
+		c.holdState.setKept(false)
 	}
 	if err := c.Conn.Close(); err != nil {
 		log.Errorf("failed to close the connection of xa branch %s, err:%v", c.txCtx.XID, err)
@@ -436,7 +435,7 @@ func (c *XAConn) checkTimeout(ctx context.Context, now time.Time) error {
 
 func (c *XAConn) Close() error {
 	c.rollBacked = false
-	if c.isConnKept && c.ShouldBeHeld() {
+	if c.holdState.isKept() && c.ShouldBeHeld() {
 		return nil
 	}
 	c.cleanXABranchContext()
@@ -478,6 +477,21 @@ type xaHoldState struct {
 	lock       sync.Mutex
 	inPhaseOne bool
 	preparedAt time.Time
+	// the connection is registered with the resource's keeper for phase two; written by the goroutine that runs
+	// phase two, read by database/sql when it closes or resets the connection
+	kept bool
+}
+
+func (h *xaHoldState) isKept() bool {
+	h.lock.Lock()
+	defer h.lock.Unlock()
+	return h.kept
+}
+
+func (h *xaHoldState) setKept(kept bool) {
+	h.lock.Lock()
+	h.kept = kept
+	h.lock.Unlock()
 }
 
 func (h *xaHoldState) enterPhaseOne() {
